@@ -8,6 +8,7 @@ mod node;
 mod rng;
 mod t1;
 mod t15;
+mod t17;
 mod t3;
 mod t4;
 mod t5;
